@@ -16,7 +16,7 @@ type User struct {
 	ID     int64 `gorm:"primaryKey"`
 	Name   string
 	BossID *int64
-	Boss   *Boss    // belongs to, pointer field, pointer key column
+	Boss   *Boss // belongs to, pointer field, pointer key column
 	CoID   int64
 	Co     Co       // belongs to, struct field, non-pointer key column
 	Items  []Item   `gorm:"foreignKey:UserID"` // has many, struct elements, non-pointer key column
